@@ -264,6 +264,40 @@ def fam_ruby(include_partial):
               "the four ruby patterns, children timed " + ("independently" if include_partial else "together"))
 
 
+def fam_ruby_presence():
+  """each child of the ruby container independently: timing x {as is, display=none, no content}; for the container
+  patterns the same on the inner rb / rt: every way in which only a part of a ruby container is presentable"""
+  tims = [(None, None), (F(1), F(3)), (None, F(2))]
+  modes = ["asis", "none", "empty"]
+  opts = [(t, m) for t in tims for m in modes]
+  cases = []
+  for pat in RUBY_PATTERNS:
+    prod = Product([opts] * len(pat))
+    for i in range(prod.n):
+      cases.append((pat, prod.decode(i), False))
+  for pat in RUBY_PATTERNS[2:]:                      # containers: the options applied to the inner rb / rt instead
+    prod = Product([opts] * len(pat))
+    for i in range(prod.n):
+      cases.append((pat, prod.decode(i), True))
+
+  def dec(i):
+    pat, ch, inner = cases[i]
+    rb = ruby_node(pat, {} if inner else {j: t for j, (t, _m) in enumerate(ch)})
+    for j, (t, m) in enumerate(ch):
+      tgt = rb["c"][j]
+      if inner:
+        tgt = tgt["c"][0]
+        tgt["b"], tgt["e"] = t
+      if m == "none":
+        tgt.setdefault("st", {})["Display"] = ["E", "DisplayType", "none"]
+      elif m == "empty":
+        tgt["c"] = []
+    p = node("p", [node("span", [text("x")], id="s0"), rb], id="p")
+    return doc_spec(node("body", [node("div", [p], id="d")], id="b"), [])
+  return _fam("F-ruby-presence", len(cases), dec,
+              "the four ruby patterns, every child independently timed / display=none / without content (also on the rb and rt inside rbc and rtc)")
+
+
 def fam_cross():
   levels = ["region", "body", "div", "p", "span"]
   prod = Product([[(None, None), (F(1), F(3))]] * 5 + [[None, "r2"]] * 3 + [[None] + levels] + [[None, "p", "region"]] + [[0, 2]])
@@ -323,5 +357,6 @@ def plan(tier, seed):
   fams.append(fam_display_anim2())
   fams.append(fam_ruby(False))
   fams.append(fam_ruby(True))
+  fams.append(fam_ruby_presence())
   fams.append(fam_cross())
   return fams
